@@ -196,8 +196,11 @@ def signature(line, impl_line):
         hops = C07.handler_ops(scripts[min(len(inv) - 1, len(scripts) - 1)])
         evs = inv[-1]["ops"]
         if evs and len(evs) < len(hops) and hops[len(evs)][0] in ("write", "flush"):
-            ev = evs[-1][0]
-            failed = (ev[0] in (1, 3) and ev[1] == 0 and ev[2] in (6, 7)) or (ev[0] == 2 and ev[1] in (6, 7)) or (ev[0] == 5 and ev[1] in (6, 7))
+            kinds = (6, 7, 2) if 4000000003 in wscript else (6, 7)     # WriteZero, BrokenPipe; ConnectionAborted-kind transport error
+            # the run hangs AT a StreamWriter operation, and an earlier read of this invocation had failed with a write-fault kind
+            # (the reply flush inside it failed and left Request.lock held) and was not propagated
+            failed = any((ev[0] in (1, 3) and ev[1] == 0 and ev[2] in kinds) or (ev[0] == 2 and ev[1] in kinds) or
+                         (ev[0] == 5 and ev[1] in kinds) for ev, _ in evs)
             if failed:
                 return "hang:handler-writes-after-failed-reply-flush"
     return ""
